@@ -22,6 +22,15 @@ if len(sys.argv) > 2 and sys.argv[2] == 'clauses':
              'generator of ordinary inputs is LEAST likely to exercise (rarely used entry points named in the quantifier, unusual but '
              'legal argument shapes, configurations off the default, interactions of two features), and break each of them in a way '
              'that leaves every other clause intact. The two changes must be in different functions and of different nature.\n')
+if len(sys.argv) > 2 and sys.argv[2] == 'helpers':
+    extra = ('\nOther testers have already changed the functions of the anchor files many times. Work differently: trace the code '
+             'paths the property depends on OUTSIDE the anchor files and outside the most obvious function — shared helpers '
+             '(hugr/utils.py, hugr/hugr/node_port.py, hugr/tys.py, hugr/ops.py, hugr/_serialization/*, hugr/ext.py, hugr/build/base.py, '
+             'hugr/std/*), base classes, dunder methods (__eq__, __hash__, __iter__, __getitem__, __post_init__), properties and '
+             'default arguments that the anchored code relies on — and place each change THERE, so that the anchored functions '
+             'themselves stay textually untouched. If the property has a single small anchor file with no such dependencies, choose '
+             'the least visited branches of it instead. The two changes must be in different files or classes. Do not use '
+             '`git stash` (the stash is shared between worktrees): keep your patches as files.\n')
 prop = next(json.loads(l) for l in open('/verif/properties.jsonl') if json.loads(l)['id'] == p)
 os.makedirs('/tmp/wt', exist_ok=True)
 wt = f'/tmp/wt/{p}'
